@@ -230,6 +230,7 @@ async fn create_world(store: &VStore, session: &Arc<Session>, name: &str, spec: 
         dropped_names: vec![],
         stale_indexed_cols: BTreeSet::new(),
         deferred_remap_pending: false,
+        last_cast: BTreeMap::new(),
     };
     w.versions.insert(v, VersionState { schema, rows, ordered: true, config: BTreeMap::new(), indices: BTreeMap::new() });
     Ok(w)
